@@ -97,6 +97,7 @@ impl RHistory {
     fn violate(&mut self, prop: &'static str, msg: String) {
         // one report per property and history is enough
         if !self.res.violations.iter().any(|v| v.prop == prop) {
+            let msg: String = if msg.len() > 360 { format!("{}...", msg.chars().take(360).collect::<String>()) } else { msg };
             self.res.violations.push(Violation { prop, step: self.step, msg });
         }
     }
